@@ -8,7 +8,9 @@ from vk.specs import dyn as Dn
 from vk.specs import walker
 
 LEVEL = "other"
-TECHNIQUE = ("QN-valid representation invariant as contract on every state-producing operation: proved for all sizes for move_qnidx (pyvc/z3); "
+TECHNIQUE = ("QN-valid representation invariant as contract on every state-producing operation: proved for all sizes for move_qnidx (pyvc/z3); decided exactly by "
+             "Engine S for all tensor values per shape for sums, differences, operator images (also charged), adjoints, and - in kernel-stub mode - canonicalise, "
+             "ensure_*, partial sweeps and lossless compression; "
              "evaluated at run time (labels vs non-zero blocks, exact zero amplitude outside the sector) over random operation histories, "
              "constructors and all sectors incl. extreme ones (bounded stand-in)")
 
@@ -105,6 +107,11 @@ def w_constructors(case, led):
 def check(run):
     from props import C03_proof
     C03_proof.prove(run)
+    # the label clauses decided exactly by Engine S for all tensor values: arithmetic (sum, difference, operator images incl. charged operators, adjoint)
+    # and gauge moves / lossless compression in kernel-stub mode
+    from props import C03_sym, C04_kernel
+    C03_sym.prove(run)
+    C04_kernel.prove(run)
     nseeds = 2 if run.tier == "quick" else 8
     length = 30 if run.tier == "quick" else 60
     cases = [(name, n, run.seed * 1000 + s, length, run.tier) for name in ("spinqn", "holstein", "spin2qn") for n in (2, 3, 4) for s in range(nseeds)]
